@@ -71,7 +71,8 @@ class Run(PropRunStream):
     strategies = ("fifo", "lifo", "random", "random")
     quick_cases = 330
     quick_seconds = 60
-    corpus = [witness("(control) distinct ranks")] + W2.CONTROLS
+    p_files = 0.5               # the real json backend + a --save-report strategy: the SAVED report.js is compared too
+    corpus = [W2.SAVED_ORDER] + [witness("(control) distinct ranks")] + W2.CONTROLS4 + W2.CONTROLS
 
     def gen(self, rng, i):
         case = super().gen(rng, i)
@@ -681,9 +682,9 @@ class DeclRun(DeclRunStream):
         return normalise_project(distinct_ranks(project))
 
 
-LEAN_MODULES = LEAN_MODULES + ["LccModel.Props.C05Decl"]
-PROPS_FILES = PROPS_FILES + ["LccModel/Props/C05Decl.lean"]
-NAMESPACES = dict(NAMESPACES, **{"LccModel/Props/C05Decl.lean": "LccModel.C05Decl"})
+LEAN_MODULES = LEAN_MODULES + ["LccModel.Props.C05Decl", "LccModel.Props.C05Saved"]
+PROPS_FILES = PROPS_FILES + ["LccModel/Props/C05Decl.lean", "LccModel/Props/C05Saved.lean"]
+NAMESPACES = dict(NAMESPACES, **{"LccModel/Props/C05Decl.lean": "LccModel.C05Decl", "LccModel/Props/C05Saved.lean": "LccModel.C05Saved"})
 TRUSTED_BASE = TRUSTED_BASE + DECL_TRUSTED + DECLRUN_TRUSTED
 RULE = RULE + "; " + DECLRUN_RULE
 
